@@ -113,6 +113,7 @@ class _TempProxy:
     def close(self):
         if not self._real.closed:
             self._rec.events.append(('c', self._h))
+            self._rec._release(self._h)
         return self._real.close()
 
     def __enter__(self):
@@ -140,6 +141,7 @@ class _FileProxy:
     def close(self):
         if not self._real.closed:
             self._rec.events.append(('c', self._h))
+            self._rec._release(self._h)
         return self._real.close()
 
     def __enter__(self):
@@ -176,11 +178,18 @@ class TraceRecorder:
         self.fail_at = fail_at
         self.temp_writes = 0
         self.fault_fired = False
-        self._next = 0
+        self._open = set()
 
     def _h(self):
-        self._next += 1
-        return self._next
+        """handle ids are allocated like file descriptors: the smallest free positive integer, released on close"""
+        h = 1
+        while h in self._open:
+            h += 1
+        self._open.add(h)
+        return h
+
+    def _release(self, h):
+        self._open.discard(h)
 
     def _norm(self, p):
         try:
